@@ -4,7 +4,9 @@
            late <maxConf|d> <maxTerm|d> <op> ... / <gate> <opA>        (real timer firing while A is parked)
            kind = fsm (mock option handler, proto LCP) | ncp (mock handler, proto IPCP)
                   | lcp | ipcp | ipv6cp (real handlers)
-           op   = U | D | O | C | T | R (Restore) | K (Kill) | I<code>.<id>.<cls>.<dlen>[.<hex data>]
+           op   = U | D | O | C | T (timerFired, current generation) | X (timerFired, superseded generation)
+                  | Y (exported Timeout()) | F (conc only: timerFired with the generation current before A)
+                  | R (Restore) | K (Kill) | I<code>.<id>.<cls>.<dlen>[.<hex data>]
                   id  = c (current lastReqID) | s (lastReqID+1) | p (lastReqID-1) | decimal
                   cls = g | n | r | b | m     (handler's answer to a Configure-Request; m = data does not parse)
                   data = the hex bytes if given, else <dlen> bytes a0 a1 ...
@@ -74,14 +76,20 @@ let () =
         let f = ref init in
         let all_items = ref [] in
         (* one event: returns (obs string, action strings, handler-call strings) *)
-        let admin_op op =       (* Restore() / Kill(): not events of the automaton *)
-          let f' = if op = "R" then restore restore_fixed c !f else kill !f in
+        let admin_op op =       (* Restore() / Kill() / stale timer fire / exported Timeout(): not events of the automaton *)
+          let f' = match op with
+            | "R" -> restore restore_fixed c !f
+            | "K" -> kill !f
+            | "X" -> clear_out !f            (* a superseded timer's fire is ignored *)
+            | _ -> raw_timeout !f in         (* Y: Timeout() runs the timeout transition unconditionally *)
+          let fy = f' in
           f := f';
+          all_items := !all_items @ List.map (fun a -> IAct a) (outs fy);
           let (((((s, r), a), l), i), fl) = obs f' in
           (Printf.sprintf "%d/%d/%d/%d/%d/%d" (int_of_z s) (int_of_z r) (if a then 1 else 0)
-             (int_of_z l) (int_of_z i) (int_of_z fl), [], []) in
+             (int_of_z l) (int_of_z i) (int_of_z fl), filter_map (show_act mock kindn f'.hlog []) (outs fy), []) in
         let rec do_op ?last op =
-          if op = "R" || op = "K" then admin_op op else
+          if List.mem op ["R"; "K"; "X"; "Y"] then admin_op op else
           let e = match op with
             | "U" -> EUp | "D" -> EDown | "O" -> EOpen | "C" -> EClose | "T" -> ETimeout
             | _ when String.length op > 1 && op.[0] = 'I' ->
@@ -155,8 +163,14 @@ let () =
           | (prefix, Some [gate; a; b]) ->
             let pre = List.map (fun op -> fmt (do_op op)) prefix in
             let last0 = int_of_z (!f).lastReq in   (* both identifiers are resolved before A starts *)
-            let (_, aa, ha) = do_op a in
-            let (ob, ab, hb) = do_op ~last:last0 b in
+            let f0 = !f in
+            let (oa, aa, ha) = do_op a in
+            let f1 = !f in
+            (* F = the production callback of the timer generation that was current before A: a timeout
+               iff A neither stopped nor restarted that timer *)
+            let (ob, ab, hb) =
+              if b = "F" then (if fire_still_valid f0 f1 then do_op "T" else (oa, [], []))
+              else do_op ~last:last0 b in
             let alt = if alternates false !all_items then "alt=ok" else "alt=BAD" in
             let ov = if List.exists (gate_hit gate) aa then "ov=1" else "ov=0" in
             print_endline (String.concat " " (pre @ [fmt (ob, aa @ ab, ha @ hb); ov; alt; "term=ok"]))
